@@ -81,13 +81,6 @@ def apply_mod(meta_molecule, modifications):
 
         target_resid = target['resid']
 
-        mod_atoms = {}
-        for mod_atom in molecule.force_field.modifications[desired_mod].atoms:
-            if 'replace' in mod_atom:
-                mod_atoms[mod_atom['atomname']] = mod_atom['replace']
-            else:
-                mod_atoms[mod_atom['atomname']] = {}
-
         target_residue = meta_molecule.nodes[_find_node_by_resid(meta_molecule, target_resid)]
         # takes care to skip all residues that come from an itp file
         if not target_residue.get('from_itp', 'False'):
@@ -99,6 +92,13 @@ def apply_mod(meta_molecule, modifications):
             LOGGER.warning("The resname of your target residue is not recognised a protein resname. "
                            "Will not attempt to modify.")
             continue
+
+        mod_atoms = {}
+        for mod_atom in molecule.force_field.modifications[desired_mod].atoms:
+            if 'replace' in mod_atom:
+                mod_atoms[mod_atom['atomname']] = mod_atom['replace']
+            else:
+                mod_atoms[mod_atom['atomname']] = {}
 
         anum_dict = {}
         # this gives you the correct node indices
